@@ -26,19 +26,22 @@ def run(tier):
             # one strong reference is added for Some(p), nothing happens for None.  Accepted ways of adding it:
             #   borrow the Arc (from_raw), clone it, neutralise the borrowed owner (into_raw / ManuallyDrop::new / forget) and leak the clone;
             #   or Arc::increment_strong_count(p).
-            sws = [s for s in mir.discr_switches(body) if s[1] == ("discr", ("arg", 1))]
-            arms = mir.enum_arms(body, sws[0]) if sws else {}
-            some_b = mir.dominated(body, arms[1]) if 1 in arms else set()
-            payload = ("field", ("downcast", ("arg", 1), "Some"), "0")
+            some_b, payloads = mir.some_region(body, 1)
             ok = ns == {-1, 0} and bool(some_b) and all(s.bb in some_b for s in sites)
+
+            class _P:      # `x == payload` for any of the spellings of the Some payload
+                def __eq__(self, other):
+                    return other in payloads
+                __hash__ = None
+            payload = _P()
             incs = [s for s in sites if s.kind == "increment_strong_count"]
             frs = [s for s in sites if s.kind == "arc_from_raw"]
             ret = body.origin_local(0)
             if ok and incs:
-                ok = len(sites) == 1 and mir.peel(body.origin_operand(incs[0].term["args"][0])) == payload and not body.in_cycle(incs[0].bb) \
-                    and mir.contains(ret, lambda x: mir.peel(x) == payload or x == ("arg", 1))
+                ok = len(sites) == 1 and payload == mir.peel(body.origin_operand(incs[0].term["args"][0])) and not body.in_cycle(incs[0].bb) \
+                    and mir.contains(ret, lambda x: payload == mir.peel(x) or x == ("arg", 1))
             elif ok:
-                ok = len(frs) == 1 and mir.peel(body.origin_operand(frs[0].term["args"][0])) == payload
+                ok = len(frs) == 1 and payload == mir.peel(body.origin_operand(frs[0].term["args"][0]))
 
                 def is_borrowed(o):
                     o = mir.peel(o)
@@ -59,9 +62,7 @@ def run(tier):
         if p == ARC + "c_drop":
             ok = ns == {0, 1} and [s.kind for s in sites] == ["arc_from_raw"]
             if ok:
-                sws = [s for s in mir.discr_switches(body) if s[1] == ("discr", ("arg", 1))]
-                arms = mir.enum_arms(body, sws[0]) if sws else {}
-                ok = 1 in arms and sites[0].bb in mir.dominated(body, arms[1])
+                ok = sites[0].bb in mir.some_region(body, 1)[0]
             ck.ob("A-drop-fn-releases-one-reference", key, ok, "c_drop must rebuild and drop exactly one Arc, only for Some(p)", sample={"fn": p})
             return True
         if fn.get("impl_trait") == "std::ops::Drop" and fn.get("impl_self_adt") == ARC + "CArc":
@@ -219,14 +220,20 @@ def run(tier):
     cc = fns.get("<cglue::arc::CArc<T> as std::clone::Clone>::clone")
     df = fns.get("<cglue::arc::CArc<T> as std::default::Default>::default")
     if ck.require(cc is not None and df is not None, "Clone/Default for CArc"):
-        body = mir.Body(cc)
-        sws = mir.discr_switches(body)
-        ok = len(sws) == 1 and sws[0][1][0] == "discr" and sws[0][1][1][0] == "call"
-        if ok:
-            arms = mir.enum_arms(body, sws[0])
-            none_b = mir.dominated(body, arms[0]) if 0 in arms else set()
-            d0 = [d for d in body.defs().get(0, []) if d[0] in none_b]
-            ok = len(d0) == 1 and d0[0][2] == "call" and mir.callee_path(d0[0][3]) == "std::default::Default::default"
+        # semantic form: run Clone::clone on a CArc whose instance is None; on every path the result must be the empty value and nothing
+        # may be called (in particular no stored function)
+        from lib import sem
+        allf = {x["path"]: x for x in f.fns("cglue-lib")}
+        ev = sem.Evaluator(allf, {a["path"]: a for a in f.adts("cglue-lib")}, inline=lambda p: p.startswith(("cglue::", "<cglue::")) or "::{closure" in p)
+        me = ("sym", "self")
+        none = ("agg", "adt", "std::option::Option", "None", ())
+        empty = ("agg", "adt", ARC + "CArc", "CArc", (none, ("sym", "clone_fn"), ("sym", "drop_fn")))
+        outs = ev.run(cc, [me], init=[(("ext", me), (), empty)])
+        ok = bool(outs) and all(o.kind == "ret" for o in outs)
+        for o in outs:
+            r = sem.strip(o.ret) if o.kind == "ret" else ("?",)
+            ok = ok and r[0] == "agg" and r[2] == ARC + "CArc" and all(sem.variant_of(x) == "None" for x in r[4]) \
+                and not [e for e in o.effects if e[0] in ("call", "icall")]
         ck.ob("E-empty-clones-to-empty", "cglue/CArc::clone", ok, "cloning an empty CArc must yield Default (empty)")
         ret = mir.Body(df).origin_local(0)
         ck.ob("E-default-is-all-none", "cglue/CArc::default", ret[0] == "agg" and all(o[0] == "agg" and o[2] == "None" for o in ret[4]), "CArc::default must set instance, clone_fn and drop_fn to None")
